@@ -277,8 +277,17 @@ def wl_reject(ctx, idx, rng):
             A = type(sig).like(sig, big)
             Bok = type(sig).like(sig, start_time=A.stop_time)
             B = type(sig).like(sig, start_time=A.stop_time + sgn * k * dt)
-        good, e0 = ctx.call("roundtrip", pb.concatenate, [A, Bok], where="long contiguous pieces")
-        if e0 is None:
+        # acceptance of the contiguous pair is only demanded while float64 rounding of L/rate stays far below the 38 ps
+        # closeness tolerance of Time (Bok's start was computed as A.stop_time, i.e. by different arithmetic)
+        span_s = L / float(sig.sample_rate.to_value(u.Hz))
+        if span_s < 1e4:
+            good, e0 = ctx.call("roundtrip", pb.concatenate, [A, Bok], where="long contiguous pieces")
+        else:
+            good, e0 = ctx.call("roundtrip", pb.concatenate, [A, Bok], where="long contiguous pieces", expect="any")
+            e0 = e0 or None
+            if isinstance(e0, Exception):
+                ctx.count("ambiguous[long_span_rounding]")
+        if e0 is None and good is not None:
             ctx.count("oracle[long_contiguous_accepted]")
             if len(good) != L + n:
                 ctx.violation("roundtrip", "long contiguous pieces: wrong length", None, {"what": "long_len"})
